@@ -432,3 +432,10 @@ package io
 //@   modifies dec.Error
 //@   ensures [index_outside_the_table_is_an_error] index < 0 || index >= len(dec.ref) ==> dec.Error != nil && len(result.names) == 0 && result.fields == nil
 //@   ensures [error_is_sticky] old(dec.Error) != nil ==> dec.Error != nil
+
+// a back-reference with any index off the wire: outside the table is an error, never an index
+//@ func (*Decoder).ReadReference
+//@   prop C04 C02
+//@   havoc
+//@   use decwf
+//@   modifies @DECWIN, dec.buf[*]
